@@ -216,15 +216,15 @@ type Conn struct {
 	mu   sync.Mutex
 	cond *sync.Cond
 
-	inq      []chunk
-	eof      bool
-	stalled  bool
-	closed   bool
-	blocked  bool // server is parked in Read with nothing to deliver
+	inq     []chunk
+	eof     bool
+	stalled bool
+	closed  bool
+	blocked bool // server is parked in Read with nothing to deliver
 	// reads answered with a timeout / EOF since the peer fell silent / hung up: a server that
 	// keeps reading after several of them is "open and still reading" for WaitQuiescent
 	stallTimeouts, eofReads int
-	accepted bool
+	accepted                bool
 
 	out       []byte
 	outTaken  int
